@@ -53,7 +53,10 @@ def translate(ctx):
 
 @contextlib.contextmanager
 def quiet():
-    with contextlib.redirect_stdout(io.StringIO()):
+    import warnings
+    import numpy as np
+    with contextlib.redirect_stdout(io.StringIO()), warnings.catch_warnings(), np.errstate(all='ignore'):
+        warnings.simplefilter('ignore')
         yield
 
 
@@ -750,6 +753,10 @@ def run(ctx, only_oracle=False, n=None, seed_shift=0):
                 'column and one layer and was written successfully')
     m = mg()
     fw, frd, fmal = res.facet('geo_write'), res.facet('geo_read'), res.facet('geo_malformed')
+    fcan = res.facet('geo_canon')
+    hyp_wf = res.hyp.setdefault('WF g (hypothesis of geo_roundtrip and its corollaries)', [0, 0])
+    hyp_lck = res.hyp.setdefault('LayerCentresKept g', [0, 0])
+    hyp_st = res.hyp.setdefault('StableSurfaces g (hypothesis of names_lists_preserved)', [0, 0])
     if n is None: n = ctx.n(70, 1500)
     rcs = recipes(ctx, n) if not seed_shift else [gen_recipe(ctx.rng('search%d' % seed_shift), True, i) for i in range(n)]
     rng_mal = ctx.rng('malformed')
@@ -820,6 +827,9 @@ def run(ctx, only_oracle=False, n=None, seed_shift=0):
             continue
         reqs.append('write ' + enc)
         meta.append(('write', rc, real_w, None))
+        # the theorem statement itself, evaluated in the model: read (write g) = canonGeo g when WF and LayerCentresKept
+        reqs += ['wf ' + enc, 'rw ' + enc, 'canon ' + enc]
+        meta += [('wf', rc, inq, None), ('rw', rc, None, None), ('canon', rc, None, None)]
         if not real_w.startswith('exc '):
             # real read of the written file, of a second generation, and of the shipped original
             texts = [real_w]
@@ -866,8 +876,29 @@ def run(ctx, only_oracle=False, n=None, seed_shift=0):
 
     if reqs:
         out = core.run_driver('drv_c03', reqs)
+        last_wf = None
+        last_rw = None
         for reply, (kind, rc, real, feet) in zip(out, meta):
-            if kind == 'write':
+            if kind == 'wf':
+                w = reply.split()
+                if w[0] != 'ok': raise RuntimeError('driver wf: ' + reply[:80])
+                last_wf = (w[1] == '1', w[2] == '1', w[3] == '1')
+                for h, ok in zip((hyp_wf, hyp_lck, hyp_st), last_wf):
+                    h[1] += 1
+                    h[0] += int(ok)
+                if real and not last_wf[0]: res.count('in quantifier but outside WF')
+            elif kind == 'rw':
+                last_rw = reply
+            elif kind == 'canon':
+                if last_wf[0] and last_wf[1]:
+                    fcan['cases'] += 1
+                    if last_rw != reply:
+                        fcan['disagreements'] += 1
+                        a, b = last_rw.split(' '), reply.split(' ')
+                        i = next((i for i, (x, y) in enumerate(zip(a, b)) if x != y), min(len(a), len(b)))
+                        res.disagreements.append(dict(facet='geo_canon', case={'recipe': rc}, model='read(write g) token %d: %s' % (i, ' '.join(a[max(0, i - 3):i + 3])),
+                                                      impl='canonGeo g: %s' % ' '.join(b[max(0, i - 3):i + 3])))
+            elif kind == 'write':
                 fw['cases'] += 1
                 if reply.startswith('ok s'): mw = bytes.fromhex(reply[4:]).decode('latin-1')
                 else: mw = reply
